@@ -331,7 +331,7 @@ pub fn parse_date(s: &[u8]) -> Option<(u32, u32, u32, u32, u32, u32, u8, u32, u3
 }
 
 fn first_diff(a: &Canon, b: &Canon, path: &str) -> Option<String> {
-    let tr = |c: &Canon| crate::engine::runner::truncate(&format!("{:?}", c), 100);
+    let tr = |c: &Canon| crate::engine::runner::truncate(&crate::engine::val::show(c), 100);
     match (a, b) {
         (Canon::Dict(x), Canon::Dict(y)) | (Canon::Stream(x, _), Canon::Stream(y, _)) => {
             for (k, v) in x {
@@ -418,7 +418,7 @@ pub fn check_case(m: &Model, tape: &[u8], strict: bool, info: &mut CaseInfo) -> 
         let p2 = match schema::roundtrip(m.name, &mut file, p1) {
             Some(Ok(p)) => p,
             Some(Err(RtErr::Read(e))) => {
-                return Err(fail(format!("c15:{}:written-form-unreadable", m.name), format!("the written form {:?} is rejected by the model's own reader: {:?}", canon(&d1), e)));
+                return Err(fail(format!("c15:{}:written-form-unreadable", m.name), format!("the written form {} is rejected by the model's own reader: {:?}", crate::engine::runner::truncate(&crate::engine::val::show(&canon(&d1)), 400), e)));
             }
             Some(Err(RtErr::Write(e))) => {
                 return Err(fail(format!("c15:{}:second-write-error", m.name), format!("the value read from the written form cannot be written: {:?}", e)));
@@ -459,7 +459,7 @@ pub fn check_case(m: &Model, tape: &[u8], strict: bool, info: &mut CaseInfo) -> 
     info.nontrivial(!b.edits.is_empty());
     info.distinct((m.name, tape));
     if info.sample.is_none() {
-        info.sample = Some(json!({"model": m.name, "edits": b.edits, "written": crate::engine::runner::truncate(&format!("{:?}", c1), 300)}));
+        info.sample = Some(json!({"model": m.name, "edits": b.edits, "written": crate::engine::runner::truncate(&crate::engine::val::show(&c1), 300)}));
     }
     // (A) write . read is idempotent on written forms
     if let Some(d) = first_diff(&c1, &c2, "") {
@@ -487,7 +487,7 @@ pub fn check_case(m: &Model, tape: &[u8], strict: bool, info: &mut CaseInfo) -> 
                         let empty = matches!(v0, Canon::Null) || matches!(v0, Canon::Array(a) if a.is_empty()) || matches!(v0, Canon::Dict(d) if d.is_empty()) || matches!(v0, Canon::Name(n) if n == b"@missing");
                         let default = m.defaults.iter().any(|(dk, dv)| *dk == ks && canon(&schema::parse(dv)) == *v0);
                         if !(empty && !is_unknown) && !default && !matches!(v0, Canon::Null) {
-                            return Err(fail(format!("c15:{}:entry-lost:{}", m.name, if is_unknown { "<unknown>".to_string() } else { ks.clone() }), format!("entry /{} = {:?} of the input is absent from the written form", ks, v0)));
+                            return Err(fail(format!("c15:{}:entry-lost:{}", m.name, if is_unknown { "<unknown>".to_string() } else { ks.clone() }), format!("entry /{} = {} of the input is absent from the written form", ks, crate::engine::val::show(v0))));
                         }
                     }
                     Some((_, v1)) => {
@@ -511,7 +511,7 @@ pub fn check_case(m: &Model, tape: &[u8], strict: bool, info: &mut CaseInfo) -> 
                             }
                         };
                         if !same {
-                            return Err(fail(format!("c15:{}:entry-changed:{}", m.name, if is_unknown { "<unknown>".to_string() } else { ks.clone() }), format!("entry /{}: input {:?}, written {:?}", ks, v0, v1)));
+                            return Err(fail(format!("c15:{}:entry-changed:{}", m.name, if is_unknown { "<unknown>".to_string() } else { ks.clone() }), format!("entry /{}: input {}, written {}", ks, crate::engine::val::show(v0), crate::engine::val::show(v1))));
                         }
                     }
                 }
@@ -736,7 +736,7 @@ fn vrt<T: pdf::object::Object + pdf::object::ObjectWrite>(file: &mut UncachedFil
     };
     let v2 = match v2 {
         Ok(v) => v,
-        Err(e) => return Vr::Bad("written-form-unreadable".into(), format!("the written form {:?} is rejected by the reader: {:?}", canon(&d1), e)),
+        Err(e) => return Vr::Bad("written-form-unreadable".into(), format!("the written form {} is rejected by the reader: {:?}", crate::engine::runner::truncate(&crate::engine::val::show(&canon(&d1)), 400), e)),
     };
     let p2 = match v2.to_primitive(file) {
         Ok(p) => p,
